@@ -44,6 +44,26 @@ Theorem C03_can_continue_arms :
 Proof. exact can_continue_arms. Qed.
 Print Assumptions C03_can_continue_arms.
 
+(* panics are always recorded and governed by ContinueOnPanic, whatever else their value matches:
+   every configuration, EVERY error profile containing ErrRecoveredPanic (io.EOF, ErrIteratorSkip,
+   ErrCurrentOpAbort, context errors, excluded sentinels ... may all be present as well) *)
+Theorem C03_panic_always_recorded :
+  forall (c : conf) (e : err), is e id_panic = true ->
+    can_continue c (Some e) = mkdec true (continue_on_panic c).
+Proof. exact panic_always_recorded. Qed.
+Print Assumptions C03_panic_always_recorded.
+
+(* ... hence for every value a user function can panic with (panic(io.EOF), panic(ctx error), ...),
+   through WithRecover; the []error value is the known finding *)
+Theorem C03_recovered_panic_always_recorded :
+  forall (c : conf) (v : panicval),
+    match v with
+    | PVErrSlice _ => True
+    | _ => can_continue c (with_recover (OPanic v)) = mkdec true (continue_on_panic c)
+    end.
+Proof. exact recovered_panic_always_recorded. Qed.
+Print Assumptions C03_recovered_panic_always_recorded.
+
 (* ParsePanic attaches ErrRecoveredPanic to every panic value except []error *)
 Theorem C03_parse_panic_marked :
   forall v, match v with PVErrSlice _ => True | _ => exists e, parse_panic (Some v) = Some e /\ is e id_panic = true end.
